@@ -19,7 +19,7 @@ PROP = dict(
                "history length; the oracle is exact up to rounding.",
     level_note="Trusts libm and the 40-line reference (unit factors derived from SI definitions in the harness, Peaceman's formulas "
                "written for the two directions perpendicular to the well). Tolerance 1e-7 because RstConnection::inverse_peaceman "
-               "uses pi = 3.14159265 when r0 is back-computed from CF and Kh (observed: <= 1.2e-9 on the relation, <= 6e-8 on r0).",
+               "uses pi = 3.14159265 when r0 is back-computed from CF and Kh (observed: <= 1.2e-9 on the relation, <= 6.1e-8 on a back-computed r0 with ln(r0/rw)+S up to 53).",
     technique="reference-model monitor (Peaceman formulas; connection-list model) + metamorphic 'explicit = computed' + step-to-step "
               "invariance of unselected connections",
     rule="cells: case = deck with 1-4 wells, one COMPDAT record each over K1..K2 of a column of random cells; non-trivial = at least "
@@ -27,9 +27,9 @@ PROP = dict(
          "with 1-4 keywords per step; non-trivial = at least one connection was re-entered, scaled, opened/shut or lumped; "
          "distinct = hash of the deck.",
     stages=[
-        dict(id="cells", harness="c06_peaceman", flavour="plain", cases={Q: 120000, T: 6000000}, timeout={Q: 600, T: 5400},
+        dict(id="cells", harness="c06_peaceman", flavour="plain", cases={Q: 120000, T: 5000000}, timeout={Q: 600, T: 5400},
              args=["part=cells"]),
-        dict(id="hist", harness="c06_peaceman", flavour="plain", cases={Q: 120000, T: 6000000}, timeout={Q: 600, T: 5400},
+        dict(id="hist", harness="c06_peaceman", flavour="plain", cases={Q: 120000, T: 5000000}, timeout={Q: 600, T: 5400},
              args=["part=hist"]),
     ],
     min_nontrivial={Q: 150000, T: 6000000},
